@@ -380,7 +380,14 @@ func (rr *runRec) buildDec(bi int, side string, ord int, d DecSpec) decor.Decora
 			if d.Vary > 0 {
 				n = int((s.Current + calls*3) % int64(d.Vary+1))
 			}
-			return fmt.Sprintf("{%s%d:%s}", side, ord, strings.Repeat("x", n))
+			glyph := "x"
+			switch d.Glyph {
+			case 1:
+				glyph = "\u4e16" // two columns, one rune
+			case 2:
+				glyph = "e\u0301" // one column, two runes
+			}
+			return fmt.Sprintf("{%s%d:%s}", side, ord, strings.Repeat(glyph, n))
 		}, wc)
 	case "pct":
 		x = decor.NewPercentage("(%d)", wc)
